@@ -36,6 +36,7 @@ type StandardClass struct {
 	initArgs        map[string]*SlotDef   // map with keys of initargs
 	sharedInitArgs  map[string][]*SlotDef // the other slots of initargs declared for more than one slot
 	initForms       map[string]*SlotDef
+	classSlots      map[string]isStandardClass // slots with :allocation :class and the class that holds the value
 	methods         map[string]*slip.Method
 	baseClass       slip.Symbol
 	Final           bool
@@ -267,6 +268,8 @@ func (c *StandardClass) MakeInstance() slip.Instance {
 }
 
 func (c *StandardClass) initObjSlots(obj *StandardObject) {
+	// The most specific definition of a slot decides whether the slot is
+	// in the instance or in a class.
 	for k, sd := range c.slotDefs {
 		if !sd.classStore {
 			obj.vars[k] = sd.initform
@@ -275,12 +278,26 @@ func (c *StandardClass) initObjSlots(obj *StandardObject) {
 	for _, ic := range c.inherit {
 		if sc, ok := ic.(isStandardClass); ok {
 			for k, sd := range sc.slotDefMap() {
-				if _, has := obj.vars[k]; !has && !sd.classStore {
+				if _, has := obj.vars[k]; !has && c.classSlots[k] == nil {
 					obj.vars[k] = sd.initform
 				}
 			}
 		}
 	}
+}
+
+// classSlotOwner returns the class that holds the value of the named slot if
+// the slot is allocated in a class, the class itself or an inherited class.
+func (c *StandardClass) classSlotOwner(name string) isStandardClass {
+	return c.classSlots[name]
+}
+
+func (c *StandardClass) classSlotNames() []string {
+	names := make([]string, 0, len(c.classSlots))
+	for k := range c.classSlots {
+		names = append(names, k)
+	}
+	return names
 }
 
 // LoadForm returns a list that can be evaluated to create the class or nil if
@@ -392,6 +409,36 @@ func (c *StandardClass) mergeSupers() bool {
 			c.methods[k] = m
 		}
 		m.Combinations = append(m.Combinations, im.Combinations...)
+	}
+	// The allocation of a slot is taken from the most specific definition of
+	// the slot. A slot allocated in a class is kept in the class with that
+	// definition and shared with the classes that inherit it.
+	c.classSlots = map[string]isStandardClass{}
+	for k, sd := range c.slotDefs {
+		if sd.classStore {
+			c.classSlots[k] = c
+		}
+	}
+	for _, ic := range c.inherit {
+		if sc, ok := ic.(isStandardClass); ok {
+			for k, sd := range sc.slotDefMap() {
+				if _, own := c.slotDefs[k]; own {
+					continue
+				}
+				if _, has := c.classSlots[k]; !has {
+					if sd.classStore {
+						c.classSlots[k] = sc
+					} else {
+						c.classSlots[k] = nil // an instance slot hides less specific definitions
+					}
+				}
+			}
+		}
+	}
+	for k, owner := range c.classSlots {
+		if owner == nil {
+			delete(c.classSlots, k)
+		}
 	}
 	c.initArgs = map[string]*SlotDef{}
 	c.sharedInitArgs = map[string][]*SlotDef{}
